@@ -140,6 +140,13 @@ def run(idx: Index, rep: Report, tier: str) -> None:
         ws = tracked_writes(cfg, fields)
         if not ws:
             raise AnalysisError(f"anchor vanished: no write to {sorted(fields)} in {q}")
+        # registering callbacks handed to the mixin by the problem (self._add_user_type_method) write the model too
+        for nd in cfg.nodes:
+            if nd.ast is not None and nd.kind == "stmt":
+                for c in ast.walk(nd.ast):
+                    if isinstance(c, ast.Call) and isinstance(c.func, ast.Attribute) and norm(c.func.value) == "self" and c.func.attr.startswith("_add_") and c.func.attr.endswith("_method"):
+                        ws.append((nd, f"the model (through self.{c.func.attr})"))
+                        rep.count("callback_writes")
         for w, what in ws:
             p = writes_then_raises(cfg, w)
             rep.check(p is None, rule4, f"{f.short}: nothing raises after `{norm(w.ast)[:50]}`", f.loc(w.ast), construct=norm(w.ast)[:90], detail="" if p is None else f"{what} is modified and the call can still raise afterwards: a rejected call leaves the model changed", function=f.qualname, path=path_text(p) if p else None)
